@@ -16,7 +16,8 @@ from symx import sparse as sp
 from symx.prove import Prover
 from symx.runner import Acc
 from symx.selftest import sparse_selftest
-from harness.common import bound, z, fval, sym_patterns, exp_facts, isclose
+from symx.npproxy import NPProxy
+from harness.common import real_code, RealCodeRaised, bound, z, fval, sym_patterns, exp_facts, exp_saturation, isclose
 
 PROPERTY = "C01"
 FUNCTIONS = ["molgri.molecules.transitions.SQRA.__init__", "molgri.molecules.transitions.SQRA.get_rate_matrix"]
@@ -89,7 +90,7 @@ def run_shape(shape):
         return s.get_rate_matrix(SR(Dval), SR(Tt))
 
     def body():
-        with bound(T, coo_array=sp.coo_array, csr_array=sp.csr_array, print=noprint):
+        with bound(T, coo_array=sp.coo_array, csr_array=sp.csr_array, print=noprint, np=NPProxy()):
             Q = one(E, D)
             Qs = one([e + cshift for e in E], D)
             Qa = one(E, ascale * D)
@@ -143,6 +144,15 @@ def run_shape(shape):
         claims += [(f"inputs_untouched[h,{k_}]", z(Ha[k_]) == H[keys[k_]]) for k_ in range(len(keys))]
         claims += [(f"inputs_untouched[E,{i}]", z(Ea[i]) == E[i]) for i in range(n)] + [(f"inputs_untouched[V,{i}]", z(Va[i]) == V[i]) for i in range(n)]
         res = prover.prove_all(prem, claims)
+        refuted = [r for r in res if r.verdict != "proved"]
+        if refuted and len(refuted) <= 40:
+            # second attempt with the exponential's own laws instantiated at the arguments that occur (the first attempt only knows exp > 0)
+            cd = dict(claims)
+            sat_ax = exp_saturation([cd[r.name] for r in refuted] + prem)
+            if len(sat_ax) <= 4000:
+                retry = {r.name: prover.prove(r.name, prem + sat_ax, cd[r.name], timeout_ms=20000) for r in refuted}
+                res = [retry[r.name] if (r.name in retry and retry[r.name].verdict == "proved") else r for r in res]
+                acc.extra["proved_with_exp_saturation"] = acc.extra.get("proved_with_exp_saturation", 0) + sum(1 for r in retry.values() if r.verdict == "proved")
         nice = _nice(E, V, S, H, D, Tt, cshift, ascale) + exp_facts(argterms[:6])
         acc.add(res, make_cex=lambda r, prem=prem, claims=dict(claims): _cex(prover, prem, claims[r.name], nice, r))
         # detailed balance for pairs under the cap: lemma (exponent sums agree) then the two homomorphism instances
@@ -207,7 +217,7 @@ def numeric_violations(shape, E, V, S, Hm, sv, hv, D, Tt, shift, scale):
     n = shape["n"]
     bad = []
     rel = lambda a, b: abs(a - b) <= 1e-9 * max(abs(a), abs(b))   # purely relative: rates span hundreds of orders of magnitude
-    with contextlib.redirect_stdout(io.StringIO()):
+    with contextlib.redirect_stdout(io.StringIO()), real_code():
         S0, H0, E0, V0 = S.copy(), Hm.copy(), E.copy(), V.copy()
         obj = T.SQRA(E, V, Hm, S)
         Q = obj.get_rate_matrix(D, Tt)
@@ -253,10 +263,10 @@ def replay(cex):
     shape = cex["shape"]
     try:
         bad = numeric_violations(shape, *_real_inputs(shape, cex.get("model", {})))
-    except Exception as e:  # noqa: BLE001
-        if cex.get("kind") == "exception":
-            return {"reproduced": type(e).__name__ == cex.get("exc"), "detail": repr(e)}
-        return {"reproduced": True, "detail": f"real code raised {e!r}"}
+    except RealCodeRaised as e:
+        return {"reproduced": True, "detail": f"real code raised {e}"}
+    except Exception as e:  # noqa: BLE001 - the harness's own oracle failed on this model (overflow ...): not a verdict about the code
+        return {"reproduced": False, "detail": f"oracle could not be evaluated on this model: {e!r}"}
     return {"reproduced": bool(bad), "detail": f"failing on the real function: {bad[:8]}", "inputs": cex.get("model")}
 
 
